@@ -160,6 +160,7 @@ func (db *DB) registerTable(table TableMeta) error {
 	verifPause("register-locked", table.Name())
 
 	root := slices.Clone(*db.root.Load())
+	verifPause("register-root-loaded", table.Name())
 
 	name := table.Name()
 	for _, t := range root {
